@@ -1,7 +1,10 @@
 from algo_prop import make
-LEAN_EXTRA = ["PyXABProofs.Generated.OrderTieC05", "PyXABProofs.Generated.FormulasC05"]
+LEAN_EXTRA = ["PyXABProofs.Props.HOOOptimism", "PyXABProofs.Generated.OrderTieC05", "PyXABProofs.Generated.FormulasC05"]
 ALGOS = ["T_HOO", "HCT", "VHCT"]
-budget, explore, search, replay = make("C05", ALGOS, salt=500)
+LONG = [("T_HOO", {"params": {"nu": 1.0, "rho": 0.5, "rounds": 4000}, "kind": "binary", "d": 1, "T": 2600, "queries": 0}),
+        ("HCT", {"params": {"nu": 1.0, "rho": 0.5, "c": 0.1, "delta": 0.01}, "kind": "binary", "d": 1, "T": 2100, "queries": 0}),
+        ("VHCT", {"params": {"nu": 1.0, "rho": 0.5, "c": 0.1, "delta": 0.01, "bound": 1.0}, "kind": "kary", "K": 3, "d": 2, "T": 1100, "queries": 0})]
+budget, explore, search, replay = make("C05", ALGOS, salt=500, long_runs=LONG)
 RULE = ("the documented pull/receive loop on the real classes: algorithm x partition class (K 2..5) x dimension 1..3 x box shape x "
         "parameters from the documented ranges x ten reward modes (dyadic noise, all-negative, zero, constant, few-valued ties, "
         "alternating sign, large, objective+noise) x five split-fraction modes, 20..150 rounds, time labels t0+i, recommendation "
